@@ -1,5 +1,9 @@
 mod common;
 mod driver;
+mod exec;
+mod gen;
+mod interp;
+mod prog;
 mod props;
 mod pt;
 mod sched;
@@ -17,6 +21,18 @@ fn main() {
         usage()
     } else if args[0] == "--worker" {
         driver::worker_main(&args[1..])
+    } else if args[0] == "--enum" {
+        // development aid: enumerate all schedules of a program file and print the outcome set
+        common::install_silent_hook();
+        let p: prog::Prog = serde_json::from_str(&std::fs::read_to_string(&args[1]).unwrap()).unwrap();
+        p.validate().unwrap();
+        let t0 = std::time::Instant::now();
+        let r = exec::enumerate(&std::sync::Arc::new(p), 5_000_000, 10_000, Default::default());
+        println!("executions={} complete={} outcomes={} depth={} nd={:?} in {:?}", r.executions, r.complete, r.outcomes.len(), r.max_depth, r.nondeterminism, t0.elapsed());
+        for (o, (n, path)) in r.outcomes.iter().take(40) {
+            println!("{n:>8} {:?} {:?} via {:?}", o.term, o.logs, path);
+        }
+        0
     } else if args[0] == "--list" {
         for p in props::all() {
             println!("{}", p.id);
